@@ -271,10 +271,22 @@ def pointwise_rules(rep, model):
     real layouts, every aliasing pattern, the output holding arbitrary
     symbols."""
     n = 0
-    for meth, op in (('_multiply', ast.Mult), ('_divide', ast.Div)):
+    DISCR = 'odl/discr/discr_space.py'
+    for (meth, op), owner in itertools.product(
+            (('_multiply', ast.Mult), ('_divide', ast.Div)),
+            ('NumpyTensorSpace', 'DiscretizedSpace')):
         fn = model.ctx.method(NPY, 'NumpyTensorSpace', meth)
         if fn is None:
             raise AnalysisError('anchor vanished: NumpyTensorSpace.' + meth)
+        wfn = None
+        if owner == 'DiscretizedSpace':
+            # the discretized space's own method, its `tspace` being the
+            # tensor space whose method is the one evaluated above
+            wfn = model.ctx.method(DISCR, 'DiscretizedSpace', meth)
+            if wfn is None:
+                raise AnalysisError('anchor vanished: DiscretizedSpace.'
+                                    + meth)
+        WHERE = (DISCR, wfn.lineno) if wfn is not None else (NPY, fn.lineno)
         for lay in LAYOUTS:
             for alias in ALIAS:
                 l1, l2, lo = lay
@@ -285,8 +297,8 @@ def pointwise_rules(rep, model):
                 if alias in ('x1 is x2', 'out is x1 is x2') and l1 != l2:
                     continue
                 n += 1
-                cons = 'NumpyTensorSpace.%s[%s,layouts x1/x2/out=%s]' % (
-                    meth, alias, '/'.join(lay))
+                cons = '%s.%s[%s,layouts x1/x2/out=%s]' % (
+                    owner, meth, alias, '/'.join(lay))
                 H = LH('small')
                 I = LI(model, {}, H)
                 x1 = Elem(layout_array('x', l1))
@@ -300,14 +312,33 @@ def pointwise_rules(rep, model):
                     out = Elem(layout_array('o', lo))
                 old1, old2 = x1.data.a.copy(), x2.data.a.copy()
                 try:
-                    I.call_func(Func(fn, I.env_of(NPY), None),
-                                [None, x1, x2, out], {})
+                    if wfn is None:
+                        I.call_func(Func(fn, I.env_of(NPY), None),
+                                    [None, x1, x2, out], {})
+                    else:
+                        def raw(name):
+                            f = model.ctx.method(NPY, 'NumpyTensorSpace',
+                                                 name)
+                            return Builtin(name, lambda a, b, o: I.call_func(
+                                Func(f, I.env_of(NPY), None),
+                                [None, a, b, o], {}))
+                        ts = Rec('tspace', _multiply=raw('_multiply'),
+                                 _divide=raw('_divide'), impl='numpy')
+                        me = Rec('discr', tspace=ts, impl='numpy')
+                        wrap = {}
+
+                        def dw(el):
+                            if id(el) not in wrap:
+                                wrap[id(el)] = Rec('delem', tensor=el)
+                            return wrap[id(el)]
+                        I.call_func(Func(wfn, I.env_of(DISCR), None),
+                                    [me, dw(x1), dw(x2), dw(out)], {})
                 except PyRaise as e:
-                    rep.violation('R4L', cons, 'raises %s' % e.name, NPY,
-                                  fn.lineno)
+                    rep.violation('R4L', cons, 'raises %s' % e.name, WHERE[0],
+                                  WHERE[1])
                     continue
                 except Undecided as e:
-                    rep.undecided('R4L', cons, str(e), NPY, fn.lineno)
+                    rep.undecided('R4L', cons, str(e), *WHERE)
                     continue
                 msg = None
                 for idx in _np.ndindex(2, 3):
@@ -325,11 +356,11 @@ def pointwise_rules(rep, model):
                                 old[idx])).is_zero():
                             msg = 'operand %s is modified' % nm
                 if msg:
-                    rep.violation('R4L', cons, msg, NPY, fn.lineno)
+                    rep.violation('R4L', cons, msg, *WHERE)
                 else:
                     rep.holds('R4L', cons, 'entrywise result, operands '
                               'untouched, nothing of the old output')
-    rep.floor('R4L', 'pointwise evaluations', n, 40)
+    rep.floor('R4L', 'pointwise evaluations', n, 80)
 
 
 def pspace_scalar_rules(rep, model):
